@@ -104,21 +104,22 @@ Proof. exact c04_own_home_owner_write. Qed.
 Print Assumptions C04_own_home_owner_write.
 
 (* "while authentication is enabled": `self._verify_user` (authenticated.Rights.__init__, inherited by owner_only and
-   owner_write; RightsVerifyGen.verify_user is REGENERATED from it) is off for the auth type "none" and for no other. *)
-Theorem C04_verify_user : forall t, RightsVerifyGen.verify_user t = false <-> t = str "none".
+   owner_write; RightsVerifyGen.verify_user is REGENERATED from it) is off for the auth type "none" and for no other value of the option
+   (`t : option pystr`: Some name, or None = a non-str value, i.e. an auth plugin passed as a callable). *)
+Theorem C04_verify_user : forall t, RightsVerifyGen.verify_user t = false <-> t = Some (str "none").
 Proof. exact c04_verify_user. Qed.
 Print Assumptions C04_verify_user.
 
 (* hence with EVERY other auth type (htpasswd, remote_user, http_x_remote_user, ldap, a custom module, ...) the
    anonymous user gets nothing on any path, and owner_only grants nothing in a foreign home *)
-Theorem C04_anonymous_nothing_auth : forall t p, t <> str "none" ->
+Theorem C04_anonymous_nothing_auth : forall t p, t <> Some (str "none") ->
   RightsGen.authorization_owner_only (RightsVerifyGen.verify_user t) [] p = []
   /\ RightsGen.authorization_owner_write (RightsVerifyGen.verify_user t) [] p = []
   /\ RightsGen.authorization_authenticated (RightsVerifyGen.verify_user t) [] p = [].
 Proof. exact c04_anonymous_nothing_auth. Qed.
 Print Assumptions C04_anonymous_nothing_auth.
 
-Theorem C04_no_foreign_home_auth : forall t u o rest tr, t <> str "none" -> Forall safe (o :: rest) ->
+Theorem C04_no_foreign_home_auth : forall t u o rest tr, t <> Some (str "none") -> Forall safe (o :: rest) ->
   (tr = [] \/ tr = [slash]) -> o <> u ->
   RightsGen.authorization_owner_only (RightsVerifyGen.verify_user t) u (render (o :: rest) ++ tr) = [].
 Proof. exact c04_no_foreign_home_auth. Qed.
